@@ -24,7 +24,7 @@ fn spec(tier: Tier) -> SimSpec {
             must_have: Some(Kind::Unreliable),
         },
         ops,
-        oracles: Oracles { content: true, ..Default::default() },
+        oracles: Oracles { content: true, impolite_once: true, ..Default::default() },
         liveness: false,
         quiescence: false,
         quiescence_memory: false,
